@@ -457,6 +457,17 @@ class UserActions(object):
 
     self._engine.invalidate_records(table_id, filled_row_ids, data_cols_to_recompute=recalc_cols)
 
+    # As for updates: an explicit value for a trigger-formula column is normally kept (see
+    # docactions.py), but a data-cleaning column (one that depends on itself) should process it.
+    if not table_id.startswith('_grist_'):
+      for col_id in column_values:
+        col_obj = table.get_column(col_id)
+        if col_obj.is_formula() or not col_obj.has_formula():
+          continue
+        col_rec = self._docmodel.columns.lookupOne(tableId=table_id, colId=col_id)
+        if col_rec.recalcOnChangesToSelf:
+          self._engine.prevent_recalc(col_obj.node, filled_row_ids, should_prevent=False)
+
     return filled_row_ids
 
   @override_action('BulkAddRecord', '_grist_Triggers')
